@@ -287,7 +287,11 @@ fn c_style_line_and_block_comments_parser(
         language,
         Box::new(move |node, source_code| {
             let kind = node.kind();
-            if is_inside_literal_text(node) {
+            // (The parent is looked up for comment nodes only: finding it costs a walk from the
+            // root, once per node of a deeply nested file otherwise.)
+            if kind != line_comment_node_kind && kind != block_comment_node_kind {
+                None
+            } else if is_inside_literal_text(node) {
                 None
             } else if kind == line_comment_node_kind {
                 Some(source_code[node.byte_range()].replacen("//", "  ", 1))
